@@ -1,5 +1,6 @@
 import GqlVerif.Props.C03
 import GqlVerif.Proofs.C01EndToEnd
+import GqlVerif.Proofs.C01AbstractI
 open GqlVerif.C03
 #print axioms ok_iff_accepts
 #print axioms null_at_non_null_rejected
@@ -22,3 +23,15 @@ open GqlVerif.C03
 #print axioms GqlVerif.C01.E2E.struct_accepts_iff
 #print axioms GqlVerif.C01.E2E.array_at_object_position_accepted
 #print axioms GqlVerif.C01.E2E.absent_nullable_key_accepted
+-- exact acceptance at abstract positions and with fragments (Proofs/C01Abstract*.lean)
+#print axioms GqlVerif.C01.E2E.variant_precise_iff
+#print axioms GqlVerif.C01.E2E.variant_precise
+#print axioms GqlVerif.C01.E2E.abs_tag_count
+#print axioms GqlVerif.C01.E2E.abs_tag_kind
+#print axioms GqlVerif.C01.E2E.abs_tag_unknown
+#print axioms GqlVerif.C01.E2E.abs_tag_known
+#print axioms GqlVerif.C01.E2E.abs_tag_selects
+#print axioms GqlVerif.C01.E2E.abs_tag_int
+#print axioms GqlVerif.C01.E2E.abs_tag_int_direct_rejected
+#print axioms GqlVerif.C01.E2E.fragment_precise_iff
+#print axioms GqlVerif.C01.E2E.fragment_precise
